@@ -349,6 +349,20 @@ func (e *Env) CutAfter(n int64) {
 	}
 }
 
+// CutNow closes every proxied connection at once (the client reconnects on its own).
+func (e *Env) CutNow() {
+	if e.proxy == nil {
+		return
+	}
+	e.proxy.mu.Lock()
+	conns := e.proxy.conns
+	e.proxy.conns = nil
+	e.proxy.mu.Unlock()
+	for _, c := range conns {
+		c.Close()
+	}
+}
+
 // CutFired tells whether the armed cut happened (and disarms).
 func (e *Env) CutFired() bool {
 	if e.proxy == nil {
